@@ -3,9 +3,10 @@
 (* atom universe below, for every shape of chain.                                                         *)
 EXTENDS ConstraintsAlgo
 
-CONSTANTS MaxC, MaxAtoms, Shapes
+CONSTANTS MaxC, MaxAtoms, Shapes, GuardSet,
+          Narrow    \* BOOLEAN: quick scope (second atom of a class and chain atoms from the small universe)
 
-U_class == {LenAtom(op, c, sd, g, "const") : op \in LenOps, c \in 0..MaxC, sd \in Sides, g \in {"none", "isnone", "other"}}
+U_class == {LenAtom(op, c, sd, g, "const") : op \in LenOps, c \in 0..MaxC, sd \in Sides, g \in GuardSet}
 U_plain == {LenAtom(op, c, "L", "none", "const") : op \in LenOps \ {"!="}, c \in 0..MaxC}
 U_small == {LenAtom(op, c, "L", "none", "const") : op \in {"<=", ">=", "=="}, c \in {0, MaxC}}
 U_forms == {LenAtom("<=", 1, "L", "none", f) : f \in {"nonconst", "conj"}}
@@ -15,9 +16,13 @@ NeedsOpt(cs) == \E j \in 1..Len(cs) : \E a \in Range(cs[j]) : a.g \in SameGuards
 Mk(kind, cs, ps) == [kind |-> kind, opt |-> NeedsOpt(cs), wmt |-> TRUE, cls |-> cs, prim |-> ps]
 
 \* shape "one": one class, up to MaxAtoms atoms from the full universe (match + reduce)
-S_one   == {Mk("str", <<as>>, <<>>) : as \in SeqsUpTo(U_class \cup U_forms, MaxAtoms)}
+S_one   == IF Narrow
+           THEN {Mk("str", <<as>>, <<>>) : as \in SeqsUpTo(U_class \cup U_forms, 1)}
+                \cup {Mk("str", <<<<a, b>>>>, <<>>) : a \in U_class, b \in U_small}
+           ELSE {Mk("str", <<as>>, <<>>) : as \in SeqsUpTo(U_class \cup U_forms, MaxAtoms)}
 \* shape "chain": three classes, one plain atom or none each (stacking)
-S_chain == {Mk("str", <<a, b, c>>, <<>>) : a \in SeqsUpTo(U_plain, 1), b \in SeqsUpTo(U_plain, 1), c \in SeqsUpTo(U_plain, 1)}
+U_chain == IF Narrow THEN U_small ELSE U_plain
+S_chain == {Mk("str", <<a, b, c>>, <<>>) : a \in SeqsUpTo(U_chain, 1), b \in SeqsUpTo(U_chain, 1), c \in SeqsUpTo(U_chain, 1)}
 \* shape "prim": P1 <- P2 in-lined into C1 <- C2 (value itself, or items of a list)
 S_prim  == {Mk(kind, <<c1, c2>>, <<p1, p2>>) : kind \in {"cprim", "listcprim"},
                p1 \in SeqsUpTo(U_small, 1), p2 \in SeqsUpTo(U_small, 1), c1 \in SeqsUpTo(U_small, 1), c2 \in SeqsUpTo(U_small, 1)}
